@@ -13,16 +13,16 @@ def run_group(cmd, cwd, env, timeout):
     """subprocess.run with capture, in its own process group; on time-out the WHOLE group is killed (cargo-kani leaves a cbmc
     child running otherwise).  Returns (returncode or None on time-out, stdout+stderr)."""
     import signal
-    p = subprocess.Popen(cmd, cwd=cwd, env=env, stdout=subprocess.PIPE, stderr=subprocess.STDOUT, text=True, start_new_session=True)
+    p = subprocess.Popen(cmd, cwd=cwd, env=env, stdout=subprocess.PIPE, stderr=subprocess.PIPE, text=True, start_new_session=True)
     try:
-        out, _ = p.communicate(timeout=timeout)
-        return p.returncode, out
+        out, err = p.communicate(timeout=timeout)
+        return p.returncode, (out or '') + (err or '')
     except subprocess.TimeoutExpired:
         try: os.killpg(p.pid, signal.SIGKILL)
         except Exception: pass
-        try: out, _ = p.communicate(timeout=10)
-        except Exception: out = ''
-        return None, (out or '') + '\nTIMEOUT'
+        try: out, err = p.communicate(timeout=10)
+        except Exception: out, err = '', ''
+        return None, (out or '') + (err or '') + '\nTIMEOUT'
 
 ROOT = os.path.dirname(os.path.dirname(os.path.abspath(__file__)))
 REPO = os.environ.get('VERIF_REPO', '/repo')
@@ -186,7 +186,7 @@ def search(harness, timeout=420):
         if harness not in hs: return {'status': 'no-harness'}
         h = hs[harness]
         env = dict(os.environ, CARGO_NET_OFFLINE='true', CARGO_TARGET_DIR=os.path.join(tmp, 'target'))
-        cmd = ['cargo', 'kani', '--harness', 'search_' + harness, '-Z', 'concrete-playback', '--concrete-playback=print', '--output-format', 'terse']
+        cmd = ['cargo', 'kani', '--harness', 'search::search_' + harness, '--exact', '-Z', 'concrete-playback', '--concrete-playback=print', '--output-format', 'terse']
         t0 = time.time()
         rc_, out = run_group(cmd, tmp, env, timeout)
         if rc_ is None:
